@@ -4,6 +4,7 @@ package c15
 
 import (
 	"fmt"
+	"math"
 	"sort"
 	"testing"
 	"time"
@@ -278,9 +279,16 @@ func check(c Case) error {
 		if fmt.Sprint(w.Nodes, w.Updates) != before {
 			return harness.Failf("C15/linestringat-mutates", "LineStringAt modified the way")
 		}
-		cp := c.way()
+		// the copy is a struct copy with its own node list; the update list is
+		// shared with the original, which must not notice
+		cpv := *w
+		cp := &cpv
+		cp.Nodes = append(osm.WayNodes(nil), w.Nodes...)
 		if err := cp.ApplyUpdatesUpTo(c.q(c.T)); err != nil {
 			return harness.Failf("C15/unexpected-error", "%v", err)
+		}
+		if fmt.Sprint(w.Nodes, w.Updates) != before {
+			return harness.Failf("C15/apply-on-copy-changes-original", "applying the updates on a struct copy (own node list, shared update list) changed the original way:\n before %s\n after  %s", before, fmt.Sprint(w.Nodes, w.Updates))
 		}
 		want := cp.LineString()
 		if len(got) != len(want) {
@@ -349,7 +357,7 @@ func TestUpdates(t *testing.T) {
 	})
 	harness.Run(t, harness.Spec[Case]{
 		Name: "updates", N: 30000,
-		Rule: "ways and relations with 0..8 children and 0..20 updates stored index-sorted (as annotation emits), time-sorted or shuffled; indices in range or (15% of cases) one beyond the list; equal timestamps, half-second offsets; Reverse flags on relation members; times t and t1<=t2 on and off the update timestamps; 60% of the ways fully annotated for the geometry clause; oracle = a reference apply written in the harness (exact children, pending list in original order, typed out-of-range error), apply(t1);apply(t2)==apply(t2) when each child's updates are time-ordered, Updates.UpTo == filter, LineStringAt(t) == LineString() of a copy updated to t; non-trivial = the stored list has an update later than t before one that is due",
+		Rule: "ways and relations with 0..8 children and 0..20 updates stored index-sorted (as annotation emits), time-sorted or shuffled; indices in range or (15% of cases) one beyond the list - by 0..2, or far beyond around 2^31, 2^32 (+ a valid index), 2^40, MaxInt64; one update in eight listed twice in a row; equal timestamps, half-second offsets; Reverse flags on relation members; times t and t1<=t2 on and off the update timestamps; 60% of the ways fully annotated for the geometry clause; oracle = a reference apply written in the harness (exact children, pending list in original order, typed out-of-range error), apply(t1);apply(t2)==apply(t2) when each child's updates are time-ordered, Updates.UpTo == filter, LineStringAt(t) == LineString() of a copy updated to t (a struct copy with its own node list that shares the update list; the original must stay as it was); non-trivial = the stored list has an update later than t before one that is due",
 		Gen: func(t *rapid.T) Case {
 			c := Case{IsWay: rapid.IntRange(0, 2).Draw(t, "way") != 0, Order: rapid.SampledFrom([]int{0, 0, 0, 2, 2, 1}).Draw(t, "order")}
 			full := rapid.IntRange(0, 9).Draw(t, "full") < 6
@@ -386,9 +394,21 @@ func TestUpdates(t *testing.T) {
 				}
 				if nc == 0 || (beyond && i == nu/2) {
 					idx = nc + rapid.IntRange(0, 2).Draw(t, "over")
+					if rapid.IntRange(0, 2).Draw(t, "far") == 0 {
+						// far beyond the list, around the 31/32-bit boundaries
+						idx = rapid.SampledFrom([]int{1 << 31, 1<<31 + 1, 1 << 32, 1<<32 + 1, 1<<32 + nc - 1, 1<<32 + nc, 1 << 40, math.MaxInt64}).Draw(t, "farIdx")
+						if idx < nc {
+							idx = 1 << 32
+						}
+					}
 				}
 				la, lo := loc("u")
 				c.Updates = append(c.Updates, Upd{Index: idx, Version: ver("uv"), TS: int64(rapid.IntRange(0, 24).Draw(t, "ts")), CS: int64(rapid.IntRange(0, 50).Draw(t, "ucs")), Lat: la, Lon: lo, Reverse: rapid.Bool().Draw(t, "rev")})
+				if rapid.IntRange(0, 7).Draw(t, "dup") == 0 {
+					// the same update listed twice in a row
+					c.Updates = append(c.Updates, c.Updates[len(c.Updates)-1])
+					i++
+				}
 			}
 			pick := func(l string) int64 {
 				if len(c.Updates) > 0 && rapid.IntRange(0, 3).Draw(t, l+"on") != 0 {
